@@ -138,6 +138,8 @@ func runC14(c *Check) {
 	c.Doc("C14-R2", "CT+CS: disjoint key kinds and safe metadata keys.")
 	c.Doc("C14-R3", "GA+CS: monotone height.")
 	c.Doc("C14-R4", "CS+VP: reader/writer codec agreement per key kind.")
+	ruleNoBatchUseAfterCommit(c, p, "C14-R10", storePkg)
+	c.MinInstances("C14-R10", 1)
 
 	ctors, ctorByLabel, kindLabel, ctorOf := storeKeyCtors(p, func(l string, ci, first *ctorInfo, fn *ssa.Function) {
 		c.Bad("C14-R2", "ctor ⟂ "+l+" ⟂ unique", fnName(fn), p.Pos(fn.Pos()), "two key constructors build keys of the same kind "+ci.first+": "+fnShort(first.fn)+" and "+fnShort(fn), nil)
